@@ -251,6 +251,34 @@ def rule_reader(ctx, R):
     sets = [(bi, si, s) for bi, blk in enumerate(b.blocks) for si, s in enumerate(blk["stmts"]) if s["k"] == "assign" and any(isinstance(e, dict) and e.get("n") == "pos" for e in s["p"]["proj"])]
     ok = len(sets) == 1 and sets[0][0] not in loop and sets[0][2]["r"]["k"] == "use" and sets[0][2]["r"]["x"].get("int") == "0"
     R.check(ok, "reader:sign_applied", "the sign flag is cleared once, after all digits were accumulated", sets[0][2]["span"]["at"] if sets else None)
+    # the accumulator starts at zero
+    acc = vars_.root_key(b.blocks[adds[0]]["term"]["args"][0]) if adds else None
+    inits = [roles.of_origin(roles.org._site(acc[1], d, 0, ())) for d in vars_.defs.get(acc[1], []) if d[1] not in loop] if acc and acc[0] == "L" else []
+    R.check(inits == ["BigNum::new(K0)"], "reader:start", "the accumulator starts at zero: %s" % inits, b.span)
+    # the flag that clears the sign: false at the start, set on the sign path (and only there), tested after the loop
+    ok, why = False, "no sign flag found"
+    if sets:
+        sb = sets[0][0]
+        for gb, blk in enumerate(b.blocks):
+            tt = blk["term"]
+            if blk["cleanup"] or tt["k"] != "switch" or tt["xty"] != "bool" or gb in loop:
+                continue
+            fk = vars_.key_of_operand(tt["x"])
+            if not fk or fk[0] != "L" or fk[1] not in b.local_names():
+                continue
+            zero = [bb for v, bb in tt["arms"] if int(v) == 0]
+            one = tt["otherwise"] if zero else None
+            if one is None or reaches_without(cfg, [0], sb, cut_edges=[(gb, one)]):
+                continue
+            ds = vars_.defs.get(fk[1], [])
+            outside = [d for d in ds if d[1] not in loop]
+            inside = [d for d in ds if d[1] in loop]
+            cst = lambda d: d[0] == "assign" and d[3]["r"]["k"] == "use" and d[3]["r"]["x"].get("int")
+            sign_only = len(inside) == 1 and not reaches_without(sub, [inside[0][1]], adds[0], cut_blocks=[head]) and not reaches_without(sub, [head], [t for t, _ in bes], cut_blocks=set(adds) | {inside[0][1]})
+            ok = len(outside) == 1 and cst(outside[0]) == "0" and len(inside) == 1 and cst(inside[0]) == "1" and sign_only
+            why = "flag %s: initial %s, in the loop %s, set on every sign path and on no digit path: %s" % (b.lname(fk[1]), [cst(d) for d in outside], [cst(d) for d in inside], sign_only)
+            break
+    R.check(ok, "reader:sign_flag", "the sign is cleared exactly when a leading '-' was seen (flag false at the start, set to true on the sign path only, tested after the loop): %s" % why, sets[0][2]["span"]["at"] if sets else None)
 
 
 def rule_bases(ctx, R):
